@@ -297,3 +297,182 @@ Proof.
   pose proof (framing msg concrete_parse live_tags thr live_tags_clean concrete_parse_needs_opener pieces (segs ms) [] u (wf_segs thr ms Hs) E O0) as F.
   destruct (feed msg concrete_parse live_tags thr [] pieces) as [outs dfin]. destruct F as [_ F]. now rewrite msgs_segs in F.
 Qed.
+
+(* ---------- any spelling the parser accepts ---------- *)
+(* The canonical text is one spelling among many (other quotes, blanks, entity forms, attribute orders).  What
+   framing needs of a spelling does not depend on how it is written: ANY text that the concrete parser reads as
+   message M, that begins with the opener of a registered tag and ends with '>', is a spelling of M. *)
+Local Open Scope N_scope.
+
+Definition closing_mode (m : mode) : bool :=
+  match m with MSlash _ _ | MEndName _ | MEndWs _ => true | _ => false end.
+
+(* the step that completes the document on a non-blank character leaves a mode in which a tag is being closed *)
+Lemma epilog_entered_from_a_closing_mode s c :
+  is_ws c = false -> md s <> MEpilog -> md (lex_step s c) = MEpilog -> closing_mode (md s) = true.
+Proof.
+  intros Hw Hn. unfold lex_step.
+  destruct (md s) eqn:Em; cbn [closing_mode]; try reflexivity; try (intro H; exfalso; revert H);
+    try rewrite Hw;
+    repeat match goal with
+           | |- context [if ?b then _ else _] => destruct b
+           | |- context [match stack s with _ => _ end] => destruct (stack s)
+           | |- context [match resolve_ref ?x with _ => _ end] => destruct (resolve_ref x)
+           | |- context [match ?m with MProlog => _ | _ => _ end] => destruct m
+           | |- context [match ?a with [] => _ | _ :: _ => _ end] => destruct a
+           end;
+    unfold emit_start;
+    repeat match goal with
+           | |- context [if ?b then _ else _] => destruct b
+           | |- context [match stack s with _ => _ end] => destruct (stack s)
+           end;
+    cbn [md with_md st_err st_unsup]; try discriminate; try (rewrite Em; discriminate); try (intros _; contradiction).
+Qed.
+
+(* ... and '>' never leaves the lexer in such a mode *)
+Lemma gt_leaves_no_closing_mode s : closing_mode (md (lex_step s 62)) = false.
+Proof.
+  unfold lex_step.
+  destruct (md s) eqn:Em; cbn [closing_mode md]; try (rewrite Em; reflexivity);
+    repeat match goal with
+           | |- context [62 =? ?b] => let v := eval vm_compute in (62 =? b) in change (62 =? b) with v
+           | |- context [is_ws 62] => change (is_ws 62) with false
+           | |- context [is_name_char 62] => change (is_name_char 62) with false
+           | |- context [is_name_start 62] => change (is_name_start 62) with false
+           | |- context [is_xml_char 62] => change (is_xml_char 62) with true
+           end;
+    cbn [orb andb];
+    repeat match goal with
+           | |- context [if ?b then _ else _] => destruct b
+           | |- context [match stack s with _ => _ end] => destruct (stack s)
+           | |- context [match resolve_ref ?x with _ => _ end] => destruct (resolve_ref x)
+           | |- context [match ?m with MProlog => _ | _ => _ end] => destruct m
+           | |- context [match ?a with [] => _ | _ :: _ => _ end] => destruct a
+           end;
+    unfold emit_start;
+    repeat match goal with
+           | |- context [if ?b then _ else _] => destruct b
+           | |- context [match stack s with _ => _ end] => destruct (stack s)
+           end;
+    cbn [md with_md st_err st_unsup closing_mode]; try reflexivity; try (rewrite Em; reflexivity).
+Qed.
+
+Lemma complete_text_does_not_end_in_two_gt (pre : str) :
+  status (fold_left lex_step (pre ++ [62; 62]) Lex.init) <> 0.
+Proof.
+  intro H. change (fold_left lex_step (pre ++ [62; 62]) Lex.init) with (run Lex.init (pre ++ [62] ++ [62])) in H.
+  rewrite app_assoc, run_app in H. cbn [run fold_left] in H.
+  set (s1 := run Lex.init (pre ++ [62])) in *.
+  assert (M : md (lex_step s1 62) = MEpilog) by (unfold status in H; destruct (md (lex_step s1 62)); try discriminate; reflexivity).
+  assert (S1 : s1 = lex_step (run Lex.init pre) 62) by (unfold s1; rewrite run_app; reflexivity).
+  pose proof (gt_leaves_no_closing_mode (run Lex.init pre)) as G. rewrite <- S1 in G.
+  destruct (md s1) eqn:E1; cbn [closing_mode] in G; try discriminate;
+    try (assert (C : closing_mode (md s1) = true) by (apply (epilog_entered_from_a_closing_mode s1 62 eq_refl); [rewrite E1; discriminate|exact M]);
+         rewrite E1 in C; discriminate).
+  (* md s1 = MEpilog: then '>' is an error *)
+  unfold lex_step in M. rewrite E1 in M. change (is_ws 62) with false in M. cbn in M. discriminate.
+Qed.
+
+Local Close Scope N_scope.
+
+Lemma live_tags_are_names : forallb (fun t => match t with [] => false | c :: _ => negb (N.eqb c 63) end) live_tags = true.
+Proof. vm_compute. reflexivity. Qed.
+
+Lemma last_two (m : str) : 2 <= length m -> exists pre a b, m = pre ++ [a; b].
+Proof.
+  intro H. assert (Hn : m <> []) by (intros ->; cbn in H; lia).
+  destruct (exists_last Hn) as (m1 & b & ->). rewrite app_length in H. cbn [length] in H.
+  assert (Hn1 : m1 <> []) by (intros ->; cbn in H; lia).
+  destruct (exists_last Hn1) as (pre & a & ->).
+  exists pre, a, b. now rewrite <- app_assoc.
+Qed.
+
+Theorem accepted_text_is_a_spelling thr (m : str) (M : msg) tag rest :
+  concrete_parse m = PMsg M ->
+  In tag live_tags -> m = LT :: tag ++ rest ->
+  nth (length m - 1) m 0%N = GT ->
+  (forall t, thr = Some t -> length m <= t) ->
+  spelling msg concrete_parse live_tags thr M m.
+Proof.
+  intros HP Htag Hm Hlast Hfit.
+  (* the tag is a name: the text does not begin with a declaration, nor does any of its prefixes *)
+  pose proof live_tags_are_names as LN. rewrite forallb_forall in LN. specialize (LN tag Htag).
+  destruct tag as [|c0 tr]; [discriminate|]. apply negb_true_iff in LN.
+  assert (Hm' : m = 60%N :: c0 :: (tr ++ rest)) by (rewrite Hm; reflexivity).
+  (* the lexer accepts the whole text *)
+  assert (St : status (fold_left lex_step m Lex.init) = 0%N).
+  { unfold concrete_parse, Lex.parse in HP. rewrite Hm' in HP. rewrite (strip_decl_elem c0 _ LN) in HP. rewrite <- Hm' in HP.
+    unfold Lex.lex in HP. destruct (status (fold_left lex_step m Lex.init)) eqn:E; [reflexivity|].
+    cbn in HP. discriminate. }
+  assert (Len : 2 <= length m) by (rewrite Hm'; cbn [length]; lia).
+  destruct (last_two m Len) as (pre & a & b & Hab).
+  assert (Hb : b = 62%N).
+  { rewrite Hab in Hlast. rewrite app_length in Hlast. cbn [length] in Hlast.
+    replace (length pre + 2 - 1) with (length pre + 1) in Hlast by lia. rewrite app_nth2_plus in Hlast. exact Hlast. }
+  subst b.
+  assert (Ha : a <> 62%N).
+  { intros ->. rewrite Hab in St. exact (complete_text_does_not_end_in_two_gt pre St). }
+  constructor.
+  - exact HP.
+  - intros k Hk.
+    assert (Hsd : strip_decl (firstn k m) = firstn k m).
+    { rewrite Hm'. destruct (firstn_elem k c0 (tr ++ rest) ltac:(lia)) as [->|[r ->]]; [reflexivity|]. exact (strip_decl_elem c0 r LN). }
+    assert (Hsplit : m = firstn k m ++ skipn k (pre ++ [a]) ++ [62%N]).
+    { rewrite Hab at 1. change [a; 62%N] with ([a] ++ [62%N]). rewrite app_assoc.
+      assert (Hkb : k <= length (pre ++ [a])).
+      { rewrite Hab in Hk. rewrite !app_length in *. cbn [length] in *. lia. }
+      rewrite Hab. change [a; 62%N] with ([a] ++ [62%N]). rewrite (app_assoc pre [a]).
+      rewrite firstn_app. replace (k - length (pre ++ [a])) with 0 by lia. rewrite firstn_O, app_nil_r.
+      rewrite app_assoc, firstn_skipn. reflexivity. }
+    rewrite Hsplit in St.
+    pose proof (no_proper_prefix_is_complete (firstn k m) (skipn k (pre ++ [a])) 62%N eq_refl St) as Np.
+    unfold concrete_parse, Lex.parse. rewrite Hsd. unfold Lex.lex.
+    destruct (status (fold_left lex_step (firstn k m) Lex.init)) eqn:E; [contradiction|]. reflexivity.
+  - rewrite Hm. exact (opener_at_0 live_tags (c0 :: tr) rest Htag).
+  - rewrite Hab. exact (ends_spec pre a Ha).
+  - exact Hfit.
+Qed.
+
+(* a stream of such texts with junk between them *)
+Definition accepted_spelling (thr : option nat) (M : msg) (m : str) : Prop :=
+  concrete_parse m = PMsg M /\
+  (exists tag rest, In tag live_tags /\ m = LT :: tag ++ rest) /\
+  nth (length m - 1) m 0%N = GT /\
+  (forall t, thr = Some t -> length m <= t).
+
+Fixpoint stream_ok (thr : option nat) (l : list (seg msg)) : Prop :=
+  match l with
+  | [] => True
+  | SJunk _ J :: r => opener_free live_tags J /\ (match r with SJunk _ _ :: _ => False | _ => True end) /\ stream_ok thr r
+  | SMsg _ M m :: r => accepted_spelling thr M m /\ stream_ok thr r
+  end.
+
+Lemma stream_ok_wf thr l : stream_ok thr l -> wf msg concrete_parse live_tags thr l.
+Proof.
+  induction l as [|[J|M m] l IH]; cbn [stream_ok wf]; [auto| |].
+  - intros (A & B & C). split; [exact A|split; [exact B|exact (IH C)]].
+  - intros ((P & (tag & rest & Ht & Hm) & Hl & Hf) & C). split; [|exact (IH C)].
+    exact (accepted_text_is_a_spelling thr m M tag rest P Ht Hm Hl Hf).
+Qed.
+
+(* C02 for the concrete parser, whatever the spelling: messages as ANY texts the parser accepts (beginning with
+   their opener, ending with '>', within the threshold), any junk free of openers between them, any pieces *)
+Theorem any_accepted_stream_is_framed thr pieces l :
+  stream_ok thr l -> concat pieces = flatten msg l ->
+  let '(outs, dfin) := feed msg concrete_parse live_tags thr [] pieces in
+  Forall (fun om => fst om = Done) outs /\ deliveries msg outs = msgs msg l.
+Proof.
+  intros Hs E.
+  exact (framing_complete msg concrete_parse live_tags thr live_tags_clean concrete_parse_needs_opener pieces l (stream_ok_wf thr l Hs) E).
+Qed.
+
+Theorem any_accepted_stream_is_framed_promptly thr pieces l u :
+  stream_ok thr l -> concat pieces ++ u = flatten msg l -> nothing_overdue msg l [] ->
+  let '(outs, dfin) := feed msg concrete_parse live_tags thr [] pieces in
+  exists l', wf msg concrete_parse live_tags thr l' /\ dfin ++ u = flatten msg l' /\
+             msgs msg l = deliveries msg outs ++ msgs msg l' /\ nothing_overdue msg l' dfin.
+Proof.
+  intros Hs E O.
+  pose proof (framing msg concrete_parse live_tags thr live_tags_clean concrete_parse_needs_opener pieces l [] u (stream_ok_wf thr l Hs) E O) as F.
+  destruct (feed msg concrete_parse live_tags thr [] pieces) as [outs dfin]. exact (proj2 F).
+Qed.
